@@ -91,8 +91,8 @@ def tokenizer_table(ctx: Ctx, rule: str) -> None:
         N.M("BAD", "re_param is None", "re.match('(\\\\w+)=(.*)', cmd_param) is None"),
         N.M("ONLY", "key == 'only'"), N.M("NO", "key == 'no'"),
         N.M("PONLY", "key.startswith('only_')"), N.M("PNO", "key.startswith('no_')"),
-        N.M("NETSRE", "re.match('(only|no)_nets', key)"),
-        N.M("VMRE", pred=lambda t: t.startswith("re.match(f'(only|no)_{vm_name}'")),
+        N.M("NETSRE", pred=lambda t: t in ("re.match('(only|no)_nets', key)", "re.fullmatch('(only|no)_nets', key)")),
+        N.M("VMRE", pred=lambda t: t.startswith("re.match(f'(only|no)_{vm_name}'") or t.startswith("re.fullmatch(f'(only|no)_{")),
         N.M("VMS", "key == 'vms'"), N.M("NETS", "key == 'nets'"),
         N.M("VARIN", "variant in available_restrictions"),
         N.M("UNKNOWNVM", "vm_name not in available_vms"),
@@ -315,7 +315,7 @@ def conflict_symmetry(ctx: Ctx, rule: str) -> None:
         if v.path.exit == "raise":
             prem = norm.conj([v.cond_formula(i) for i, s in enumerate(v.steps) if s.kind == "cond"])
             names = {n for a in norm.atoms_of(prem) for n in norm.names_in(a)}
-            if norm.implies(prem, ("atom", "re.match('(only|no)_nets', key)")) and (names & a_e):
+            if any(norm.implies(prem, ("atom", f"re.{m}('(only|no)_nets', key)")) for m in ("match", "fullmatch")) and (names & a_e):
                 raises["restriction"] = True
             if norm.implies(prem, ("atom", "key == 'nets'")) and (names & a_r):
                 raises["explicit"] = True
@@ -367,6 +367,27 @@ def empty_product_detection(ctx: Ctx, rule: str) -> None:
                "" if ok2 else "the resolution of a nets restriction into suffixes changed")
 
 
+def object_key_exact(ctx: Ctx, rule: str) -> None:
+    """A restriction key names its object exactly: `only_vm11=` is not a restriction of vm1, `only_netsx=` not one of nets."""
+    fn = ctx.repo.func(PFC)
+    sites = [c for c in calls_in(fn.node) if isinstance(c.func, ast.Attribute) and ast.unparse(c.func.value) == "re" and c.func.attr in ("match", "fullmatch", "search")
+             and c.args and "(only|no)_" in ast.unparse(c.args[0])]
+    bad = []
+    for c in sites:
+        pat = c.args[0]
+        anchored = c.func.attr == "fullmatch" or ast.unparse(pat).rstrip("'\"").endswith("$")
+        # an interpolated object name must not be read as a regular expression
+        interpolated = [v.value for v in ast.walk(pat) if isinstance(v, ast.FormattedValue)]
+        escaped = all(isinstance(v, ast.Call) and ast.unparse(v.func) == "re.escape" for v in interpolated)
+        if not anchored:
+            bad.append(f"{ast.unparse(c)[:60]}: prefix match (a key that merely starts with the object's name is attributed to it)")
+        elif not escaped:
+            bad.append(f"{ast.unparse(c)[:60]}: object name interpolated unescaped")
+    ok = not bad and len(sites) >= 2
+    ctx.record(rule, "TABLE", PFC, "object restriction keys are matched as a whole: (only|no)_nets and (only|no)_<vm> with nothing following, the vm name taken literally", ok,
+               {"sites": [ast.unparse(c)[:80] for c in sites]}, "" if ok else (bad[0] if bad else "the classification of object restriction keys vanished"))
+
+
 def error_handling(ctx: Ctx, rule: str) -> None:
     for fref in ("plugins/manu.py:Manu.run", "plugins/auto.py:Auto.run"):
         fn = ctx.repo.func(fref)
@@ -396,12 +417,14 @@ def run(ctx: Ctx) -> None:
     ctx.call(conflict_symmetry, "4")
     ctx.call(error_handling, "5")
     ctx.call(empty_product_detection, "7")
+    ctx.call(object_key_exact, "1x")
     from . import graphrules as GR
 
     ctx.call(GR.restriction_updates, "6")
 
 
 MUTANTS = [
+    ("object-key-prefix-match", "cmd_parser.py", "if re.fullmatch(f\"(only|no)_{re.escape(vm_name)}\", key):", "if re.match(f\"(only|no)_{vm_name}\", key):", "1x"),
     ("dot-not-split", CMD, "re.split(r\",|\\.|\\.\\.\", value)", "re.split(r\",|\\.\\.\", value)", "1s"),
     ("vm-restriction-replaced", CMD, "                        vm_strs[vm_name] += vm_str", "                        vm_strs[vm_name] = vm_str", "1"),
     ("tests-restriction-replaced", CMD, "            tests_str += \"%s %s\\n\" % (key, value)", "            tests_str = \"%s %s\\n\" % (key, value)", "1"),
